@@ -5,7 +5,7 @@
 From Coq Require Import Lia.
 From CR Require Import Model.Group Proofs.Group Model.Listener Proofs.Listener Model.Teardown gen.ExtGroup.
 (* (c): the dialer clauses C10_constants, C10_delay_literal, C10_trace_is_chunks, C10_backoff, C10_attempts,
-   C10_timeout_is_error, C10_policy, C10_policy_classes, C10_cancel_partial are stated in Properties/C10dial.v *)
+   C10_timeout_is_error, C10_policy, C10_policy_classes, C10_cancel_partial, C10_cancel are stated in Properties/C10dial.v *)
 From CR Require Properties.C10dial.
 (* what "link not ready" means (conn.go): C10_link_ready, C10_link_not_ready, C10_link_check_total, C10_link_down_not_asked,
    C10_link_lookup, C10_link_dial, C10_link_dial_ready, C10_link_legacy_refuted are stated in Properties/C10link.v *)
@@ -108,3 +108,4 @@ Print Assumptions C10dial.C10_timeout_is_error.
 Print Assumptions C10dial.C10_policy.
 Print Assumptions C10dial.C10_policy_classes.
 Print Assumptions C10dial.C10_cancel_partial.
+Print Assumptions C10dial.C10_cancel.
